@@ -11,6 +11,7 @@ pub mod orch;
 pub mod resolve_api;
 pub mod time_travel;
 pub mod maintenance;
+pub mod returns;
 pub mod delta_roundtrip;
 pub mod deltaid;
 pub mod history;
@@ -45,6 +46,7 @@ pub fn run(name: &str, thorough: bool, seed: u64) -> Option<Report> {
         "resolve_api" => Some(resolve_api::run(thorough, seed)),
         "time_travel" => Some(time_travel::run(thorough, seed)),
         "maintenance" => Some(maintenance::run(thorough, seed)),
+        "returns" => Some(returns::run(thorough, seed)),
         _ => None,
     }
 }
@@ -70,6 +72,7 @@ pub fn replay(name: &str, case: &Value) -> Value {
         "resolve_api" => resolve_api::replay(case),
         "time_travel" => time_travel::replay(case),
         "maintenance" => maintenance::replay(case),
+        "returns" => returns::replay(case),
         _ => json!({"reproduced": false, "error": "unknown oracle"}),
     }
 }
